@@ -93,6 +93,14 @@ CHECKS.update({
             "DESIGN.md §3 C16"),
 })
 
+CHECKS.update({
+    "C10": ("exploration",
+            "model-based testing of the real server binary over gRPC/HTTP with per-tenant reference models plus a differential non-interference relation (same case replayed with one tenant alone)",
+            "Generated multi-tenant RPC sequences (Insert, BulkInsert, BulkLoadHnsw, Query, BulkQuery, Search, BulkSearch, UpdateMetadata, Delete, BatchDelete by ids and by filter, FlushHotTier, GET /usage; callers alpha/beta/gamma/admin/disabled key/unknown key/no key; colliding local ids incl. 2^32-1, shared vectors and queries, 3 namespaces, spoofed reserved keys, filters of every shape also ON the reserved keys, SIGTERM restart inside the case) against the real kyrodb_server process. Every response is judged against a per-tenant reference model (found flags, vectors, metadata without reserved keys, existed, deleted_count, containment of search results, UNAUTHENTICATED for invalid keys, /usage rows), and the case is replayed on fresh servers with only alpha's / only beta's requests: that tenant's responses must be identical in both worlds.",
+            "The server binary is the repository's kyrodb_server.rs compiled in the harness workspace (same engine library, no target-cpu=native). Search non-interference is judged only while all documents are in the exhaustively scanned recent-write tier; tie groups are compared as sets. Known finding C10-F1 (tenant filtering after the global top-k) is counted and skipped.",
+            "DESIGN.md §3 C10, §2.7"),
+})
+
 NOT_APPLICABLE = {
 }
 
